@@ -402,7 +402,7 @@ pub fn run(run: &Run) {
 	run.exhaustive.store(true, std::sync::atomic::Ordering::SeqCst);
 	run.note(format!("exhaustive over D x D x operators with |D| = {}", d.len()));
 	// random bit patterns
-	let n = run.tier.pick(300, 6_000);
+	let n = run.tier.pick(3_000, 30_000);
 	run.explore("random-bit-patterns", n, 64..=64, |src| {
 		let mut qs = vec![];
 		for _ in 0..8 {
